@@ -427,6 +427,20 @@ def concrete_roundtrip(rep):
     # large documents (long sources, incompressible text, many modules, non-latin text)
     docs += [{"code": "x = 1\n" * 20000}, {"code": "".join(chr(33 + (i * 7919 + i // 7) % 90) for i in range(150000))},
              {"modules": {f"m{i}": ("def f():\n    return %d\n" % i) * 120 for i in range(40)}}, {"code": "# \u4e2d\u6587\n" * 9000}]
+    # every string constant that occurs in the source of the two functions, as key and as value (a key or
+    # text the functions treat specially is one of these)
+    import ast as _ast
+    import inspect as _inspect
+
+    from stationeers_pytrapic import types as _rt
+
+    consts = set()
+    for fn_ in (_rt.encode_data, _rt.decode_data):
+        for node in _ast.walk(_ast.parse(_inspect.getsource(fn_))):
+            if isinstance(node, _ast.Constant) and isinstance(node.value, str) and len(node.value) < 40:
+                consts.add(node.value)
+    for c_ in sorted(consts):
+        docs += [{c_: 1}, {"code": c_, c_: c_}, {"options": {c_: True}, "code": c_ * 3}]
     for d in docs:
         try:
             e = encode_data(d)
